@@ -261,7 +261,27 @@ def resume_json(ctx, party, mode, scratch):
 
 
 def run_world(sc, observe=0, snapshot=True, setup=None, mutate_constraints=True, after_load=None):
-    """Execute one world. Returns a Trace; never raises for SUT behaviour (recorded in tr.exc)."""
+    """Execute one world. Returns a Trace; never raises for SUT behaviour (recorded in tr.exc).
+    sc['sim']['host_tz']: the machine's own time zone for the duration of the run (TZ + tzset, restored afterwards); simulation
+    times are naive or carry their own zone, so nothing may depend on it."""
+    host = sc.get("sim", {}).get("host_tz")
+    if host and host != os.environ.get("TZ"):
+        import time as _time
+        old_tz = os.environ.get("TZ")
+        os.environ["TZ"] = host
+        _time.tzset()
+        try:
+            return _run_world(sc, observe, snapshot, setup, mutate_constraints, after_load)
+        finally:
+            if old_tz is None:
+                os.environ.pop("TZ", None)
+            else:
+                os.environ["TZ"] = old_tz
+            _time.tzset()
+    return _run_world(sc, observe, snapshot, setup, mutate_constraints, after_load)
+
+
+def _run_world(sc, observe=0, snapshot=True, setup=None, mutate_constraints=True, after_load=None):
     ctx = Ctx(sc, observe=observe, snapshot=snapshot, mutate_constraints=mutate_constraints)
     tr = Trace()
     tr.sc = sc
@@ -271,6 +291,7 @@ def run_world(sc, observe=0, snapshot=True, setup=None, mutate_constraints=True,
     tr.rejections = []
     tr.resumes = []
     tr.refills = []
+    tr.branches = []
     tr.terminal = None
     scratch = None
     saved_tap = _install_tap()
@@ -382,6 +403,16 @@ def run_world(sc, observe=0, snapshot=True, setup=None, mutate_constraints=True,
                         # is demanded while they carry state (resume in memory instead)
                         mode = "rerun"
                         ctx.fired("json_resume_downgraded_stochastic_state")
+                    if mode == "deepcopy_branch":
+                        # what-if branch: a copy.deepcopy of the interrupted simulator is set aside (it is run to completion, on
+                        # its own, after the original has finished); the original resumes in memory
+                        if not cuts and not hasattr(nw_, "waiting_queue"):
+                            import copy as _copy
+                            br = _copy.deepcopy(ctx.sim)
+                            br.scheduler.faults = {}
+                            tr.branches.append({"sim": br, "t": ctx.sim.iteration, "hist_len": len(ctx.sim.event_history)})
+                            ctx.fired("deepcopy_branch")
+                        mode = "rerun"
                     ctx.log(("resume", mode, ctx.sim.iteration))
                     info = {"mode": mode, "t": ctx.sim.iteration, "queue_empty": ctx.sim.event_queue.empty()}
                     if mode != "rerun":
@@ -435,6 +466,28 @@ def run_world(sc, observe=0, snapshot=True, setup=None, mutate_constraints=True,
                     tr.exc = e
                     tr.exc_kind = kind
                     break
+            # the branches run now, one after the other, each under its own (copied) context
+            for b_ in tr.branches:
+                if tr.exc is not None:
+                    break
+                b_["orig_hist_before"] = len(ctx.sim.event_history)
+                bctx = b_["sim"].scheduler.ctx
+                bctx.sim = b_["sim"]
+                _CUR[0] = bctx
+                try:
+                    b_["sim"].run()
+                    b_["exc"] = None
+                except (StepCapExceeded, SchedulerCrash) as e:
+                    b_["exc"] = e
+                except HarnessError:
+                    raise
+                except Exception as e:
+                    if classify_exception(e) == "harness":
+                        raise
+                    b_["exc"] = e
+                finally:
+                    _CUR[0] = ctx
+                b_["orig_hist_after"] = len(ctx.sim.event_history)
         tr.sim = ctx.sim
         tr.warnings = [(w.category.__name__, str(w.message)) for w in wlist]
     except _FirstLifeFailed:
